@@ -18,6 +18,8 @@ SCALAR_OPS = ("single_layer", "double_layer", "adjoint_double_layer", "hypersing
 def boundary(api, family, op, domain, range_, dual, k=None, parameters=None, assembler="default_nonlocal", precision=None):
     """family in laplace/helmholtz/modified_helmholtz/maxwell/sparse."""
     B = api.operators.boundary
+    if isinstance(assembler, str) and "/" in assembler:   # "dense/single": assembler and precision in one configuration string
+        assembler, precision = assembler.split("/", 1)
     kw = dict(parameters=parameters, assembler=assembler)
     if precision is not None:
         kw["precision"] = precision
